@@ -163,27 +163,25 @@ def run_target(tid, tier='quick', seed=0, open_findings=(), source=None, do_conc
             ob = dict(id=f'{t.id}.{vc["clause"]}@{path_id(vc["path"])}', clause=vc['clause'], verdict=verdict,
                       backend=backend, ms=round(secs * 1000, 1))
             if verdict == 'sat':
-                inp = None
-                try:
-                    inp = concretise(run, vc, assertions, tier) if run.inputs else None
-                except Exception as e:
-                    ob['concretise_error'] = str(e)[:200]
-                ob['inputs'] = inp
-                if inp is not None and t._conc is not None:
+                inp = None; block = []
+                for attempt in range(4):      # a model that the real code happens to satisfy is blocked and another one is asked for
                     try:
-                        r = t._conc(dict(inp))
-                        ob['replay'] = r
-                        # the model must also refute *this* clause on the real code
-                        failed = r.get('failed', [])
-                        if not r['ok'] and (not failed or clause_matches(vc['clause'], failed)):
-                            ob['verdict'] = 'violation'
-                        elif not r['ok']:
-                            ob['verdict'] = 'violation'       # another clause fails on the same input
-                        else:
-                            ob['verdict'] = 'encoding-mismatch'
+                        inp = concretise(run, vc, assertions + block, tier) if run.inputs else None
                     except Exception as e:
-                        ob['replay_error'] = ''.join(traceback.format_exception_only(type(e), e)).strip()[:300]
-                        ob['verdict'] = 'refuted-unreplayed'
+                        ob['concretise_error'] = str(e)[:200]; inp = None
+                    if inp is None: break
+                    ob['inputs'] = inp
+                    if t._conc is None: break
+                    try:
+                        r = t._conc(dict(inp)); ob['replay'] = r
+                    except Exception as e:
+                        ob['replay_error'] = ''.join(traceback.format_exception_only(type(e), e)).strip()[:300]; r = None; break
+                    if not r['ok']: break
+                    diff = blocking_clause(run, inp)
+                    if diff is None: break
+                    block.append(diff)
+                if inp is not None and t._conc is not None and 'replay_error' not in ob:
+                    ob['verdict'] = 'violation' if not ob['replay']['ok'] else 'encoding-mismatch'
                 else:
                     ob['verdict'] = 'refuted-unreplayed'
                 if model is not None and inp is None:
@@ -216,6 +214,20 @@ def run_target(tid, tier='quick', seed=0, open_findings=(), source=None, do_conc
                                    trace=traceback.format_exc()[-1200:])
     res['wall_s'] = round(time.time() - t0, 2)
     return res
+
+
+def blocking_clause(run, inp):
+    """some scalar input differs from the given concrete value"""
+    lits = []
+    for name, spec in run.inputs.items():
+        v = inp.get(name)
+        if isinstance(spec, tuple):
+            if spec[0] == 'opt':
+                lits.append(z3.Not(spec[1]) if v is None else z3.Or(spec[1], spec[2] != (z3.StringVal(v) if isinstance(v, str) else v)))
+            continue
+        try: lits.append(spec != (z3.StringVal(v) if isinstance(v, str) else v))
+        except Exception: pass
+    return z3.Or(*lits) if lits else None
 
 
 def clause_matches(clause, failed):
